@@ -7,5 +7,5 @@ rc=0
 for P in $(python3 -c "import json;print(' '.join(c['property_id'] for c in json.load(open('MANIFEST.json'))['checks']))"); do
   ./check $P > /tmp/refreeze_$P.log 2>&1 || { echo "$P FAILS after refreeze:"; grep -E "^  !! " /tmp/refreeze_$P.log | cut -c1-200; rc=1; }
 done
-[ $rc -eq 0 ] && echo "refreeze: all checks pass"
+if [ $rc -eq 0 ]; then echo "refreeze: all checks pass"; else echo "refreeze: FAILED -- do not commit"; fi
 exit $rc
